@@ -1,0 +1,192 @@
+//go:build verif
+
+package core
+
+// Exported wrappers around unexported functions, for external verification
+// machinery.  Only compiled with `-tags verif`.
+
+import (
+	"fmt"
+	"path"
+	"strings"
+
+	"github.com/martian-lang/martian/martian/syntax"
+)
+
+// VerifForkPart describes one dimension of a fork id.
+type VerifForkPart struct {
+	// The map key, if this dimension is a map.
+	Key string
+	// All keys of the map this dimension ranges over.
+	Keys []string
+	// The array index, if this dimension is an array.
+	Index int
+	// The array length.
+	Len   int
+	IsMap bool
+	// The collection's size is only known at run time.
+	Dynamic bool
+}
+
+type verifMapSource struct {
+	mode    syntax.CallMode
+	known   bool
+	length  int
+	keys    map[string]syntax.Exp
+	display string
+}
+
+func (s *verifMapSource) CallMode() syntax.CallMode { return s.mode }
+func (s *verifMapSource) KnownLength() bool         { return s.known }
+func (s *verifMapSource) ArrayLength() int {
+	if s.known && s.mode == syntax.ModeArrayCall {
+		return s.length
+	}
+	return -1
+}
+func (s *verifMapSource) Keys() map[string]syntax.Exp {
+	if s.known && s.mode == syntax.ModeMapCall {
+		return s.keys
+	}
+	return nil
+}
+func (s *verifMapSource) GoString() string { return s.display }
+
+// VerifMakeForkId builds a real ForkId out of a description of its parts.
+func VerifMakeForkId(parts []VerifForkPart) ForkId {
+	id := make(ForkId, 0, len(parts))
+	for _, p := range parts {
+		src := &verifMapSource{known: !p.Dynamic, display: "verif"}
+		part := &ForkSourcePart{}
+		if p.IsMap {
+			src.mode = syntax.ModeMapCall
+			src.keys = make(map[string]syntax.Exp, len(p.Keys))
+			for _, k := range p.Keys {
+				src.keys[k] = nil
+			}
+			part.Id = mapKeyFork(p.Key)
+			if p.Dynamic {
+				part.Range = mapKeyRange(p.Keys)
+			}
+		} else {
+			src.mode = syntax.ModeArrayCall
+			src.length = p.Len
+			part.Id = arrayIndexFork(p.Index)
+			if p.Dynamic {
+				part.Range = arrayLengthRange(p.Len)
+			}
+		}
+		part.Split = &syntax.SplitExp{Source: src}
+		id = append(id, part)
+	}
+	return id
+}
+
+// VerifForkNames returns the directory name (relative to the stage
+// directory) and the journal-name component for the given fork, computed
+// the way Fork.updateId does.
+func VerifForkNames(parts []VerifForkPart) (dir string, journal string, err error) {
+	id := VerifMakeForkId(parts)
+	dir, err = id.ForkIdString()
+	if err != nil {
+		return dir, "", err
+	}
+	return dir, encodeJournalName.Replace(dir), nil
+}
+
+// VerifParseRunFilename exposes Node.parseRunFilename.
+func VerifParseRunFilename(name string) (fqname, fork string, chunk int, uniquifier, file string) {
+	var n *Node
+	return n.parseRunFilename(name)
+}
+
+type verifCallGraphNode struct {
+	syntax.CallGraphNode
+	fqid string
+}
+
+func (c *verifCallGraphNode) GetFqid() string { return c.fqid }
+
+// VerifRouteFork runs the real Node.getFork over a node with the given
+// fully-qualified id whose forks have the given journal-name components
+// (as returned by VerifForkNames), and returns the position of the fork the
+// given journal fork index is attributed to, or -1.
+func VerifRouteFork(fqid string, forkJournalNames []string, index string) int {
+	node := &Node{call: &verifCallGraphNode{fqid: fqid}}
+	node.forks = make([]*Fork, len(forkJournalNames))
+	for i, n := range forkJournalNames {
+		node.forks[i] = &Fork{node: node, index: i, fqname: fqid + "." + n}
+	}
+	f := node.getFork(index)
+	if f == nil {
+		return -1
+	}
+	return f.index
+}
+
+// VerifJournalFileName computes the name of the journal file which
+// would be written (by mrjob through NewMetadataRunWithJournalPath and
+// UpdateJournal) for the given metadata file name of a job, relative to the
+// journal directory.
+//
+// kind is "split", "join" or "chunk".
+func VerifJournalFileName(topFqname, stageFqid, forkJournalName, kind string,
+	chunkIndex, chunkWidth int, uniquifier string, name string) string {
+	forkFq := stageFqid + "." + forkJournalName
+	var md *Metadata
+	runType := kind
+	if kind == "chunk" {
+		// As in NewChunk.
+		fq := forkFq + "." + fmt.Sprintf("chnk%0*d", chunkWidth, chunkIndex)
+		journalName := strings.TrimPrefix(strings.TrimPrefix(fq, topFqname), ".")
+		md = newMetadataWithJournalPath(fq, journalName, "/x", "/j")
+		runType = "main"
+	} else {
+		// As in Fork.updateId.
+		md = NewMetadata(forkFq+"."+kind, "/x")
+		md.journalPath = path.Join("/j", strings.TrimPrefix(
+			strings.TrimPrefix(forkFq, topFqname), "."))
+	}
+	md.uniquifier = uniquifier
+	runFile := md.journalFile()
+	// As in mrjob main.
+	jmd := NewMetadataRunWithJournalPath(path.Base(runFile), "/x", "/x/files",
+		path.Dir(runFile), runType)
+	// As in UpdateJournal.
+	fname := jmd.journalPath + "." + jmd.journalPrefix + name
+	return strings.TrimPrefix(fname, "/j/")
+}
+
+// VerifShellSafeQuote exposes shellSafeQuote.
+func VerifShellSafeQuote(s string) string {
+	return shellSafeQuote(s)
+}
+
+// VerifFormatArgs exposes formatArgs.
+func VerifFormatArgs(envs map[string]string, shellCmd string, argv []string) string {
+	return formatArgs(envs, shellCmd, argv)
+}
+
+// VerifJobScript runs the real RemoteJobManager.jobScript with the given
+// template.
+func VerifJobScript(template string, settings *JobManagerSettings,
+	memGBPerCore int, alwaysVmem bool, resourcesOpt string, jobResources map[string]string,
+	shellCmd string, argv []string, envs map[string]string,
+	metaPath, filesPath string, res *JobResources,
+	fqname, shellName string) string {
+	jm := &RemoteJobManager{
+		jobMode:              "verif",
+		memGBPerCore:         memGBPerCore,
+		jobResourcesMappings: jobResources,
+		config: jobManagerConfig{
+			jobSettings:      settings,
+			jobTemplate:      template,
+			jobResourcesOpt:  resourcesOpt,
+			alwaysVmem:       alwaysVmem,
+			threadingEnabled: strings.Contains(template, "__MRO_THREADS__"),
+		},
+	}
+	md := NewMetadata(fqname, metaPath)
+	md.curFilesPath = filesPath
+	return jm.jobScript(shellCmd, argv, envs, md, res, fqname, shellName)
+}
